@@ -100,6 +100,9 @@ class SimLoop(asyncio.base_events.BaseEventLoop):
     ) -> Tuple["SimDatagramTransport", Any]:
         if self.net is None:
             raise RuntimeError("SimLoop has no network attached")
+        if local_addr and remote_addr and (":" in str(local_addr[0])) != (":" in str(remote_addr[0])):
+            # asyncio pairs the getaddrinfo results of both ends by address family and finds no pair
+            raise ValueError("can not get address information")
         if self.net.endpoint_delay is not None:
             d = self.net.endpoint_delay()
             if d:
